@@ -42,8 +42,16 @@ func (p *PanicInfo) Key() string {
 		}
 		return p.Class + "@" + f
 	}
+	if p.Class == "type-assertion" {
+		// which dynamic type reaches the assertion is part of the identity
+		if m := assertedType.FindStringSubmatch(p.Value); m != nil {
+			return p.Class + "@" + p.Frame + "[" + m[1] + "]"
+		}
+	}
 	return p.Class + "@" + p.Frame
 }
+
+var assertedType = regexp.MustCompile(`interface \{\} is ([^,]+),`)
 
 // Exec is the outcome of one simulated execution.
 type Exec struct {
